@@ -330,14 +330,35 @@ func (p *parser) quant(forall bool) Expr {
 	}
 	q := &EQuant{Forall: forall}
 	if p.isOp(":") {
-		p.next()
-		// type up to '::'
-		var ty []string
-		for !p.isOp("::") {
-			ty = append(ty, p.next().s)
-		}
-		for _, n := range names {
-			q.Vars = append(q.Vars, QVar{Name: n, Type: strings.Join(ty, "")})
+		for {
+			p.next() // ':'
+			var ty []string
+			for !p.isOp("::") && !p.isOp(",") {
+				ty = append(ty, p.next().s)
+			}
+			for _, n := range names {
+				q.Vars = append(q.Vars, QVar{Name: n, Type: strings.Join(ty, "")})
+			}
+			if !p.isOp(",") {
+				break
+			}
+			p.next()
+			names = nil
+			for {
+				t := p.next()
+				if t.k != "id" {
+					panic("quantified variable expected")
+				}
+				names = append(names, t.s)
+				if p.isOp(",") {
+					p.next()
+					continue
+				}
+				break
+			}
+			if !p.isOp(":") {
+				panic("':' expected after quantified variable group")
+			}
 		}
 	} else {
 		t := p.next()
@@ -437,6 +458,7 @@ type UFunc struct {
 type ContractSet struct {
 	UFuncs map[string]*UFunc
 	Axioms []Clause
+	Lemmas []Clause // proved standalone; usable like axioms by functions that 'uses' one of their tags
 	Preds map[string]*Pred
 	Funcs map[string]*FuncContract // key: pkgpath + "::" + ssa name
 	Order []string
@@ -447,7 +469,7 @@ func NewContractSet() *ContractSet {
 }
 
 var clauseKeywords = map[string]bool{"pred": true, "func": true, "requires": true, "ensures": true, "loop": true,
-	"modifies": true, "ufunc": true, "axiom": true, "noframe": true, "opaque": true, "reveal": true, "uses": true, "trusted": true, "pure": true, "safe": true, "decreases": true, "let": true, "ghost": true, "init": true, "package": true}
+	"modifies": true, "ufunc": true, "axiom": true, "lemma": true, "noframe": true, "opaque": true, "reveal": true, "uses": true, "trusted": true, "pure": true, "safe": true, "decreases": true, "let": true, "ghost": true, "init": true, "package": true}
 
 // ParseContractFile reads the //@ lines of one file.
 func (cs *ContractSet) ParseContractFile(path, pkgPath string) error {
@@ -565,13 +587,17 @@ func (cs *ContractSet) ParseContractFile(path, pkgPath string) error {
 				uf.Params = append(uf.Params, Param{f[0], strings.Join(f[1:], "")})
 			}
 			cs.UFuncs[uf.Name] = uf
-		case "axiom":
+		case "axiom", "lemma":
 			c, err := mk(rest)
 			if err != nil {
 				return err
 			}
 			c.Pkg = pkgPath
-			cs.Axioms = append(cs.Axioms, c)
+			if kw == "lemma" {
+				cs.Lemmas = append(cs.Lemmas, c)
+			} else {
+				cs.Axioms = append(cs.Axioms, c)
+			}
 		case "func":
 			cur = &FuncContract{Name: rest, Pkg: pkgPath, File: path, Line: it.n, Loops: map[int]*LoopContract{}}
 			key := pkgPath + "::" + rest
